@@ -3,6 +3,8 @@
   ONLY property theorems and non-vacuity examples live here; lemmas are in HctlProofs/Lemmas.
 -/
 import HctlProofs.Lemmas.ParserCorrect
+import HctlProofs.Lemmas.LexerLemmas
+import HctlModel.Api
 namespace Hctl.C05
 
 /-- The fuel the model passes is always sufficient: fuel exhaustion is never an answer. -/
@@ -56,6 +58,29 @@ theorem paren_invariant (ts : List Tok) (t : Tree) (h : parseToks ts = .ok t) :
   rw [parse_iff_derives] at h ⊢
   exact D.up (by decide) (D.up (by decide) (D.up (by decide) (D.up (by decide) (D.up (by decide)
     (D.up (by decide) (D.up (by decide) (D.up (by decide) (D.group h))))))))
+
+/-- The plain parser rejects wild-cards and domains: whatever text it accepts yields a tree without
+wild-card propositions and without domains (for every text, of any length and nesting). -/
+theorem plain_rejects_ext (K : CharClass) (hK : Lex.CharOK K) (cs : List Char) (ts : List Tok) (t : Tree)
+    (hl : Lex.tokenize K false cs = .ok ts) (hp : parseToks ts = .ok t) : Plain t := by
+  apply plain_of_frontier
+  rw [← accepted_frontier ts t hp]
+  exact (Lex.tokenize_ext_of_plain K hK cs ts hl).2
+
+/-- The extended parser yields the same tree as the plain one on every text the plain parser accepts. -/
+theorem ext_extends_plain (K : CharClass) (hK : Lex.CharOK K) (cs : List Char) (ts : List Tok)
+    (hl : Lex.tokenize K false cs = .ok ts) : Lex.tokenize K true cs = .ok ts :=
+  (Lex.tokenize_ext_of_plain K hK cs ts hl).1
+
+/-- The same two statements at the level of the entry point `parse_and_minimize_(extended_)formula`. -/
+theorem parseOne_ext_of_plain (E : Env) (K : CharClass) (hK : Lex.CharOK K) (cs : List Char) (t : Tree)
+    (h : Api.parseOne E K false cs = .ok t) : Api.parseOne E K true cs = .ok t := by
+  unfold Api.parseOne at h ⊢
+  cases hl : Lex.tokenize K false cs with
+  | error e => simp [hl] at h
+  | ok ts =>
+    rw [ext_extends_plain K hK cs ts hl]
+    simpa [hl] using h
 
 /-! Non-vacuity: concrete accepted inputs, priorities and associativity, and the repaired defect D7. -/
 
